@@ -1,0 +1,91 @@
+//go:build verif
+
+package hclsyntax
+
+// Read-only exports used by the external verification harness (build tag
+// "verif"). Nothing here changes behaviour; with the tag off this file is
+// not compiled.
+
+// VerifOp is one entry of the binary operator precedence table.
+type VerifOp struct {
+	Level int // index into binaryOps: 0 = lowest precedence
+	Token TokenType
+	Name  string
+}
+
+// VerifBinaryOps dumps the binaryOps table used by parseBinaryOps.
+func VerifBinaryOps() []VerifOp {
+	names := map[*Operation]string{
+		OpLogicalOr:          "OpLogicalOr",
+		OpLogicalAnd:         "OpLogicalAnd",
+		OpLogicalNot:         "OpLogicalNot",
+		OpEqual:              "OpEqual",
+		OpNotEqual:           "OpNotEqual",
+		OpGreaterThan:        "OpGreaterThan",
+		OpGreaterThanOrEqual: "OpGreaterThanOrEqual",
+		OpLessThan:           "OpLessThan",
+		OpLessThanOrEqual:    "OpLessThanOrEqual",
+		OpAdd:                "OpAdd",
+		OpSubtract:           "OpSubtract",
+		OpMultiply:           "OpMultiply",
+		OpDivide:             "OpDivide",
+		OpModulo:             "OpModulo",
+		OpNegate:             "OpNegate",
+	}
+	var ret []VerifOp
+	for i, lvl := range binaryOps {
+		for tt, op := range lvl {
+			n, ok := names[op]
+			if !ok {
+				n = "?"
+			}
+			ret = append(ret, VerifOp{Level: i, Token: tt, Name: n})
+		}
+	}
+	return ret
+}
+
+// VerifOpName names one of the package-level operations.
+func VerifOpName(op *Operation) string {
+	switch op {
+	case OpLogicalOr:
+		return "OpLogicalOr"
+	case OpLogicalAnd:
+		return "OpLogicalAnd"
+	case OpLogicalNot:
+		return "OpLogicalNot"
+	case OpEqual:
+		return "OpEqual"
+	case OpNotEqual:
+		return "OpNotEqual"
+	case OpGreaterThan:
+		return "OpGreaterThan"
+	case OpGreaterThanOrEqual:
+		return "OpGreaterThanOrEqual"
+	case OpLessThan:
+		return "OpLessThan"
+	case OpLessThanOrEqual:
+		return "OpLessThanOrEqual"
+	case OpAdd:
+		return "OpAdd"
+	case OpSubtract:
+		return "OpSubtract"
+	case OpMultiply:
+		return "OpMultiply"
+	case OpDivide:
+		return "OpDivide"
+	case OpModulo:
+		return "OpModulo"
+	case OpNegate:
+		return "OpNegate"
+	}
+	return "?"
+}
+
+// VerifSplatLive reports how many per-context values are currently held by
+// the anonymous symbol of a splat expression.
+func VerifSplatLive(e *SplatExpr) int {
+	e.Item.valuesLock.RLock()
+	defer e.Item.valuesLock.RUnlock()
+	return len(e.Item.values)
+}
